@@ -90,7 +90,14 @@ pub fn partner(r: &mut Rng, a: i128) -> i128 {
         4 => NPC - 1,
         _ => r.below(NPC as u64) as i128,
     };
-    match r.below(10) {
+    match r.below(11) {
+        10 => {
+            // word-size aliases: equal to +/-a (or nearly) once truncated to 64, 63 or 32 bits
+            let k = *r.pick(&[-3i128, -2, -1, 1, 2, 3]);
+            let w = *r.pick(&[1i128 << 64, 1i128 << 63, 1i128 << 32]);
+            let base = if r.chance(1, 2) { a } else { -a };
+            base + k * w + if r.chance(1, 2) { 0 } else { sgn * d.min(2) }
+        }
         0 => -a + sgn * d,
         1 => a + sgn * d,
         2 => DMAX - a + sgn * d,
